@@ -1111,7 +1111,7 @@ def run(ctx):
                 'distinct = distinct programs; Spec oracle = GF(2) function equality over all assignments of the support')
     check_poly_programs(ctx, sp, exhaustive_poly_programs(), 4)
     rng = rng_for(ctx.seed, 'c09-poly')
-    nprog = budget(ctx.tier, 500, 6000)
+    nprog = budget(ctx.tier, 1200, 12000)
     if ctx.drift:
         nprog = max(nprog, 2500)
     progs = [gen_poly_program(rng, 4, rng.randint(3, 10), rng.random() < 0.6) for _ in range(nprog)]
@@ -1127,7 +1127,7 @@ def run(ctx):
     check_codes(ctx, sc, base_codes(ctx.tier, ctx.drift))
     check_codes(ctx, sc, SPECIAL_CODES)
     rng = rng_for(ctx.seed, 'c09-codes')
-    nexpr = budget(ctx.tier, 150, 1500)
+    nexpr = budget(ctx.tier, 300, 3000)
     if ctx.drift:
         nexpr = max(nexpr, 600)
     exprs = []
@@ -1146,11 +1146,11 @@ def run(ctx):
                 'codes additionally compared term for term with jordan_wigner / bravyi_kitaev; distinct = distinct (code, operator)')
     rng = rng_for(ctx.seed, 'c09-bct')
     cases = []
-    per_code = budget(ctx.tier, 4, 20)
+    per_code = budget(ctx.tier, 6, 40)
     if ctx.drift:
         per_code = max(per_code, 10)
     pool = [e for e in base_codes('quick', False) if sizes(e)[0] <= (8 if big else 7)] + SPECIAL_CODES
-    nrand = budget(ctx.tier, 40, 300)
+    nrand = budget(ctx.tier, 60, 400)
     while nrand > 0:
         e = rand_cexpr(rng, 2, rng.choice([4, 6, 8]))
         if e is not None:
